@@ -142,8 +142,10 @@ func idemMain(s *simrt.Sim, info *harness.RunInfo) {
 		cfg.KeepResponseHeaders = []string{"X-Exec", "X-Multi"}
 	}
 	var sim *harness.SimStorage
+	var keyGuard *harness.KeyGuard
 	if useSim {
 		sim = harness.NewSimStorage(s, "idem-store")
+		sim.KeyOracle = "C17.storage-key-aliases-request-buffer"
 		if faults {
 			sim.FailGet = simrt.PickS(s, 0, 60, 150)
 			sim.FailSet = simrt.PickS(s, 0, 100, 250)
@@ -158,7 +160,8 @@ func idemMain(s *simrt.Sim, info *harness.RunInfo) {
 		}
 		cfg.Storage = sim
 	} else {
-		cfg.Storage = simexport.NewMemoryStorageGC(lifetime / 2)
+		keyGuard = harness.NewKeyGuard(s, simexport.NewMemoryStorageGC(lifetime/2), "C17.storage-key-aliases-request-buffer")
+		cfg.Storage = keyGuard
 	}
 	var lk *simLocker
 	if faults || s.Chance(300) {
@@ -301,6 +304,9 @@ func idemMain(s *simrt.Sim, info *harness.RunInfo) {
 	}
 	join(&wg)
 	s.SetPreempt(0)
+	if keyGuard != nil {
+		keyGuard.Check("at the end of the run")
+	}
 	if s.Failed() {
 		return
 	}
